@@ -84,6 +84,90 @@ AWR(x, e, lo, hi, rl, ru, cl, cu) == LET r == RL(e, rl, ru, cl, cu) IN [rate |->
 AWRCases == { [x |-> x, e |-> e, lo |-> -1, hi |-> 2, rl |-> -1, ru |-> 1, cl |-> cl, cu |-> cu, exp |-> AWR(x, e, -1, 2, -1, 1, cl, cu)] :
               x \in {-2, -1, 0, 2, 3}, e \in -3..3, cl \in {0, 1}, cu \in {0, 1} }
 
+(* ---------------- iteration gating of discrete components inside Newton loops (Discrete.check_iter_err) ---------------- *)
+(* a component is held back only while BOTH an iteration count below min_iter AND an error above err_tol are supplied;     *)
+(* a caller that supplies neither (an external solver) always evaluates it.  None stands for "not supplied".              *)
+None == -1
+Gate(niter, err, minIter, errTol) == ~(niter # None /\ niter < minIter /\ err # None /\ err > errTol)
+GateCases == { [niter |-> n, err |-> e, min_iter |-> m, err_tol |-> 2, open |-> Gate(n, e, m, 2)] :
+               n \in {None, 0, 1, 2, 3}, e \in {None, 0, 1, 2, 3, 4}, m \in {0, 2, 3} }
+ASSUME \A c \in GateCases : (c.niter = None \/ c.err = None) => c.open
+ASSUME \A c \in GateCases : (c.niter # None /\ c.niter >= c.min_iter) => c.open
+
+(* ---------------- limit adjustment at initialisation (Limiter.check_var / AntiWindup.check_eq with is_init) ---------------- *)
+(* when the input starts beyond a limit, the component allows adjustment, the model allows it and the model asks for that   *)
+(* side, the limit is moved to the input (the parameter array itself is changed); otherwise the limit stays; never after     *)
+(* initialisation.  Signs +1 only (the library marks sign -1 as not adjustable).                                             *)
+AdjLimits(u, lo, hi, compAllow, modelAllow, adjLo, adjHi, isInit) ==
+    LET on == compAllow /\ modelAllow /\ isInit
+    IN [lo |-> IF on /\ adjLo /\ u < lo THEN u ELSE lo, hi |-> IF on /\ adjHi /\ u > hi THEN u ELSE hi]
+AdjCase(u, lo, hi, eq, ca, ma, al, ah, ii) ==
+    LET L == AdjLimits(u, lo, hi, ca, ma, al, ah, ii)
+    IN [u |-> u, lo |-> lo, hi |-> hi, eq |-> eq, comp_allow |-> ca, model_allow |-> ma, adj_lo |-> al, adj_hi |-> ah, is_init |-> ii,
+        exp |-> [lo |-> L.lo, hi |-> L.hi, flags |-> LimFlags(u, L.lo, L.hi, eq, 1, 1, FALSE, FALSE)]]
+AdjCases == { AdjCase(u, lo, hi, eq, ca, ma, al, ah, ii) :
+              u \in -3..4, lo \in {-1, 0}, hi \in {1, 2}, eq \in BOOLEAN, ca \in BOOLEAN, ma \in BOOLEAN, al \in BOOLEAN, ah \in BOOLEAN,
+              ii \in BOOLEAN }
+(* adjustment only widens, only at initialisation, and with both sides requested the input ends up inside [lower, upper] *)
+ASSUME \A c \in AdjCases : c.exp.lo <= c.lo /\ c.exp.hi >= c.hi
+ASSUME \A c \in AdjCases : ~c.is_init => (c.exp.lo = c.lo /\ c.exp.hi = c.hi)
+ASSUME \A c \in AdjCases : (c.is_init /\ c.comp_allow /\ c.model_allow /\ c.adj_lo /\ c.adj_hi) => (c.exp.lo <= c.u /\ c.u <= c.exp.hi)
+(* the same for an anti-windup limiter on a state (derivative e): limits adjusted first, then the anti-windup rule *)
+AWAdjCases == { [x |-> x, e |-> e, lo |-> -1, hi |-> 1, comp_allow |-> ca, model_allow |-> ma, adj_lo |-> al, adj_hi |-> ah, is_init |-> ii,
+                 exp |-> LET L == AdjLimits(x, -1, 1, ca, ma, al, ah, ii)
+                         IN [lo |-> L.lo, hi |-> L.hi, aw |-> AW(x, e, L.lo, L.hi, 1, 1)]] :
+               x \in -3..3, e \in {-1, 0, 1}, ca \in BOOLEAN, ma \in BOOLEAN, al \in BOOLEAN, ah \in BOOLEAN, ii \in BOOLEAN }
+
+(* ---------------- anti-windup flags locked after niter_lock = 4 iterations of one step (chattering stop) ---------------- *)
+(* two successive evaluations inside one Newton loop: from the fifth iteration on a flag that was set stays set *)
+AWLock(prev, x, e, lo, hi, niter) ==
+    LET n == AW(x, e, lo, hi, 1, 1)
+        zu == IF niter > 4 /\ prev.zu = 1 THEN 1 ELSE n.zu
+        zl == IF niter > 4 /\ prev.zl = 1 THEN 1 ELSE n.zl
+        zi == B(zu = 0 /\ zl = 0)
+    IN [zu |-> zu, zl |-> zl, zi |-> zi, x |-> IF zi = 1 THEN x ELSE hi * zu + lo * zl, e |-> IF zi = 1 THEN e ELSE 0]
+AWLockCases == { [x1 |-> x1, e1 |-> e1, x2 |-> x2, e2 |-> e2, lo |-> -1, hi |-> 2, niter |-> n,
+                  exp |-> LET first == AW(x1, e1, -1, 2, 1, 1) IN [first |-> first, second |-> AWLock(first, x2, e2, -1, 2, n)]] :
+                x1 \in {-2, -1, 0, 2, 3}, e1 \in {-1, 0, 1}, x2 \in {-2, -1, 0, 2, 3}, e2 \in {-1, 0, 1}, n \in {0, 4, 5, 6} }
+                \* a state cannot be pegged at both limits: second evaluation on the far side of a locked flag is left out
+AWLockSane == { c \in AWLockCases : c.exp.second.zu + c.exp.second.zl <= 1 }
+ASSUME \A c \in AWLockSane : (c.niter <= 4) => c.exp.second = AW(c.x2, c.e2, -1, 2, 1, 1)
+
+(* ---------------- sorted limiter (PV -> PQ conversion in the power flow): sticky flags, at most n per side and check ---------------- *)
+(* Devices 1..3 share the limits [lo, hi]; an evaluation that passes the gate ranks the devices by (u - lo) and by (hi - u),   *)
+(* takes the n smallest of each ranking, and flags those of them that violate a limit; flags once set are never cleared.      *)
+(* Inputs are chosen so that no two devices are at the same distance from a limit (the ranking is then unambiguous).          *)
+SLDev == 1..3
+SLlo == -10
+SLhi == 10
+SLVals(k) == { 10 * a + k : a \in {-2, -1, 0, 1, 2} }       \* device k sees -20+k ... 20+k: below, at the edge of, inside, above
+RECURSIVE NSmallest(_, _, _)
+NSmallest(S, key, n) == IF n = 0 \/ S = {} THEN {}
+                        ELSE LET m == CHOOSE d \in S : \A o \in S : key[d] <= key[o] IN {m} \cup NSmallest(S \ {m}, key, n - 1)
+SLStep(st, u, n, open) ==
+    IF ~open THEN st
+    ELSE LET sel == NSmallest(SLDev, [d \in SLDev |-> u[d] - SLlo], n) \cup NSmallest(SLDev, [d \in SLDev |-> SLhi - u[d]], n)
+             zl == [d \in SLDev |-> B((d \in sel /\ u[d] <= SLlo) \/ st.zl[d] = 1)]
+             zu == [d \in SLDev |-> B((d \in sel /\ u[d] >= SLhi) \/ st.zu[d] = 1)]
+         IN [zl |-> zl, zu |-> zu, zi |-> [d \in SLDev |-> B(zl[d] = 0 /\ zu[d] = 0)]]
+SLInit == [zl |-> [d \in SLDev |-> 0], zu |-> [d \in SLDev |-> 0], zi |-> [d \in SLDev |-> 1]]
+SLInputs == { u \in [SLDev -> -19..23] : \A d \in SLDev : u[d] \in SLVals(d) }
+RECURSIVE SLRun(_, _, _, _)
+SLRun(st, calls, n, k) == IF k > Len(calls) THEN <<>>
+                          ELSE LET s2 == SLStep(st, calls[k].u, n, calls[k].open) IN <<s2>> \o SLRun(s2, calls, n, k + 1)
+SLCase(calls, n) == [calls |-> calls, n |-> n, flags |-> SLRun(SLInit, calls, n, 1)]
+SLInputs2 == { u \in SLInputs : \A d \in SLDev : u[d] \in {-20 + d, d, 20 + d} }
+SLCalls2 == { <<[u |-> a, open |-> oa], [u |-> b, open |-> TRUE]>> : a \in SLInputs, b \in SLInputs2, oa \in BOOLEAN }
+SLCases == { SLCase(c, n) : c \in SLCalls2, n \in {1, 2} }
+(* sticky: a flag set by one evaluation is still set after the next; a closed gate changes nothing; each evaluation flags  *)
+(* at most 2n more devices (deviation kept as the code has it: the two rankings are merged before the comparison, so when    *)
+(* every device violates the same side n_select = 1 flags two of them, although the docstring says "at most one over-limit    *)
+(* and one under-limit"); a device that never violated is never flagged                                                     *)
+ASSUME \A c \in SLCases : \A d \in SLDev : c.flags[1].zl[d] <= c.flags[2].zl[d] /\ c.flags[1].zu[d] <= c.flags[2].zu[d]
+ASSUME \A c \in SLCases : ~c.calls[1].open => c.flags[1] = SLInit
+ASSUME \A c \in SLCases : Cardinality({d \in SLDev : c.flags[1].zl[d] = 1 \/ c.flags[1].zu[d] = 1}) <= 2 * c.n
+ASSUME \A c \in SLCases : \A d \in SLDev : (c.calls[1].u[d] > SLlo /\ c.calls[2].u[d] > SLlo) => c.flags[2].zl[d] = 0
+
 (* ---------------- comparators, switch, selector ---------------- *)
 CmpCases == { [u |-> u, bound |-> b, eq |-> eq, lt |-> B(IF eq THEN u <= b ELSE u < b), iseq |-> B(u = b)] :
               u \in Vals, b \in Lims, eq \in BOOLEAN }
